@@ -110,6 +110,20 @@ def Family(name, rng):
               ('logica_value', Op('+', d, Lit(N(2))), 'Max')],
              [Atom('Nat', [('col0', x), ('logica_value', d)])], True)])
     return [Nat], [['Nat']], {}
+  if name == 'selfloop_hub':
+    # Reach reads itself and Hub, Hub reads Reach: only Reach cuts the group;
+    # never converges, so the number of applications stays observable
+    Reach = Pred('Reach', [
+        Rule([('col0', Lit(N(0)), '')], [], True),
+        Rule([('col0', Op('+', x, Lit(N(1))), '')],
+             [Atom('Reach', [('col0', x)])], True),
+        Rule([('col0', Op('+', x, Lit(N(10))), '')],
+             [Atom('Hub', [('col0', x)])], True)])
+    Hub = Pred('Hub', [
+        Rule([('col0', Op('*', x, Lit(N(2))), '')],
+             [Atom('Reach', [('col0', x)]), Cmp(Op('<', x, Lit(N(3))))],
+             True)])
+    return [Reach, Hub], [['Reach', 'Hub']], {}
   if name == 'cycle3':
     A = Pred('A', [Base(), Step('A', 'C')])
     B = Pred('B', [Step('B', 'A')])
@@ -137,7 +151,7 @@ def Family(name, rng):
 
 FAMILIES = ['tc_set', 'tc_bag', 'counter', 'sp_min', 'evenodd', 'cycle3',
             'complete3', 'twocycles', 'two_components', 'pingpong',
-            'counter_distinct']
+            'counter_distinct', 'selfloop_hub']
 
 
 def Case(name, depth, iterative, rng, cid):
